@@ -692,6 +692,10 @@ var c04directed = []struct{ src, want string }{
 	{`{{ 1 + 2 * 3 }}|{{ 10 - 4 - 3 }}|{{ 2 * 3 % 4 }}|{{ 1 + 2 < 4 }}|{{ 1 < 2 == true }}|{{ -i2 * 3 }}|{{ 24 / 4 / 2 }}`, "7|3|2|true|true|-6|3"},
 	{`{{ "a" + 1 }}|{{ "a" + 1.5 }}|{{ "a" + true }}|{{ "a" + "b" + 2 }}|{{ "n" + i7 }}`, "a1|a1.5|atrue|ab2|n7"},
 	{`{{ im2 <= -2.5 }}|{{ im2 > -2.5 }}|{{ im2 < -1.5 }}|{{ im2 >= -2.5 }}|{{ -2.5 < im2 }}`, "false|true|true|true|true"},
+	// Go integers beyond 2^53 (ids, nanosecond timestamps) combine integrally: no detour through float64
+	{`{{ big % i2 }}|{{ big / i2 }}|{{ big + i2 }}|{{ big - i7 }}|{{ big * i2 }}|{{ nanos % sec }}|{{ -big / i2 }}|{{ -i7 / i2 }}|{{ nanos / sec }}|{{ big % big1 }}`,
+		"1|4503599627370496|9007199254740995|9007199254740986|18014398509481986|123456789|-4503599627370496|-3|1700000000|9007199254740993"},
+	{`{{ big == big1 }}|{{ big < big1 }}|{{ big1 > big }}|{{ big != big1 }}|{{ big1 - big }}|{{ (big1 - big) * i7 % i2 }}`, "false|true|true|true|1|1"},
 }
 
 func c04run(c *fw.Ctx, idx int) {
@@ -702,6 +706,7 @@ func c04run(c *fw.Ctx, idx int) {
 		defer c.End()
 		vars := jet.VarMap{}
 		vars.Set("i1", 5).Set("i7", 7).Set("i2", 2).Set("im7", -7).Set("im2", -2).Set("bt", true).Set("bf", false).Set("si", []int{9, 4})
+		vars.Set("big", int64(9007199254740993)).Set("big1", int64(9007199254740994)).Set("nanos", int64(1700000000123456789)).Set("sec", int64(1000000000))
 		vars.Set("fi", func(id string, v int) int { return v })
 		res := jx.Run(map[string]string{"/t.jet": d.src}, "/t.jet", vars, nil, jx.NoEscape)
 		want := d.want
@@ -812,7 +817,7 @@ func init() {
 		Technique: "typed reference evaluator and probe call log over generated expression trees, each rendered in four surface forms (minimal parentheses, no spaces, and/or/not, redundant parentheses)",
 		Rule: "type-directed random expression trees (depth <=5) over float literals, Go ints of several widths (incl. int8, int64, uint16), float32/64, strings, bools, calls, index expressions, unary minus, !, * / %, + -, relational, equality, && ||, ?:; printed with only the parentheses the documented ladder requires; " +
 			"oracle: rendered value equals the model's (ints and floats compared numerically and two Go ints must render integrally; strings/bools byte-exact), identical across the four surface forms, and the log of side-effecting probe operands equals the model's need-only evaluation order; " +
-			"6 directed cases pin the documented examples ((a)-1, f(x)-1, s[0]-1, a*-1, truncating / and %, negative non-integral float comparisons, right-nested ?:); cases the statement does not type (% with non-integral operands, int==non-integral float, division by zero, mixed-kind equality) are discarded and counted; " +
+			"8 directed cases pin the documented examples ((a)-1, f(x)-1, s[0]-1, a*-1, truncating / and %, negative non-integral float comparisons, right-nested ?:, integers beyond 2^53 in % / + - * and comparisons); cases the statement does not type (% with non-integral operands, int==non-integral float, division by zero, mixed-kind equality) are discarded and counted; " +
 			"non-trivial = at least two operators; distinct by operator/operand-kind shape",
 		Assumptions: []string{"float results are produced by the same float64 operations in the same order, so they are compared with =="},
 		NCases:      c04n,
